@@ -84,17 +84,22 @@ class CCQR(QR):
         R = basis_matrix.conj().T.copy()
         p = np.arange(n)
         k = min(m, n)
+        row = 0  # first row of R that has not been eliminated yet
 
         for j in range(k):
-            u, i_piv = qr_reflector(R[j:, j:], sensor_costs[p[j:]])
+            u, i_piv = qr_reflector(R[row:, j:], sensor_costs[p[j:]])
             # Track column pivots
             i_piv += j
             p[[j, i_piv]] = p[[i_piv, j]]
             # Switch columns
             R[:, [j, i_piv]] = R[:, [i_piv, j]]
             # Apply reflector
-            R[j:, j:] -= np.outer(u, np.dot(u, R[j:, j:]))
-            R[j + 1 :, j] = 0
+            R[row:, j:] -= np.outer(u, np.dot(u, R[row:, j:]))
+            R[row + 1 :, j] = 0
+            # A pivot whose residual is exactly zero removes no direction from
+            # the remaining residuals, so its row is kept for the next step.
+            if np.any(u):
+                row += 1
 
         self.pivots_ = p
 
@@ -140,7 +145,7 @@ def qr_reflector(r, costs):
         u[0] += np.sign(u[0]) + (u[0] == 0)
         u /= np.sqrt(abs(u[0]))
     else:
-        u = r[:, i_piv]
-        u[0] = np.sqrt(2)
+        # Zero residual: nothing to reflect
+        u = np.zeros_like(r[:, i_piv])
 
     return u, i_piv
